@@ -178,6 +178,53 @@ pub fn run(run: &mut Run) {
         built_s.push((v.clone(), s));
         built_e.push((v.clone(), e));
     }
+    // float results: addition is not associative, so "the sum of the per-case results in the order given"
+    // is one particular value; every length of a dense range and around the sizes where a blocked,
+    // pairwise or vectorised summation would change its grouping
+    {
+        let mut lens: Vec<usize> = (0..=70).collect();
+        lens.extend([127, 128, 129, 255, 256, 257, 511, 512, 513, 999, 1000, 1001, 1002, 1023, 1024, 1025, 1499, 2000, 2001, 2047, 2048, 2049, 4095, 4096, 4097, 10_000, 65_535, 65_536, 65_537, 70_001]);
+        for len in lens {
+            let pats: Vec<(&str, Vec<f64>)> = vec![
+                ("1e16 then ones", (0..len).map(|i| if i == 0 { 1e16 } else { 1.0 }).collect()),
+                ("ones then 1e16", (0..len).map(|i| if i + 1 == len { 1e16 } else { 1.0 }).collect()),
+                ("tenths", vec![0.1; len]),
+                ("1e16, 1, -1e16, 1, ...", (0..len).map(|i| match i % 4 { 0 => 1e16, 2 => -1e16, _ => 1.0 }).collect()),
+            ];
+            for (pname, v) in pats {
+                n += 2;
+                let want = v.iter().skip(1).fold(v.first().copied().unwrap_or(0.0), |a, b| a + *b);
+                let e: TestResults<Error<f64>> = TestResults::from(v.clone());
+                let sc: TestResults<Score<f64>> = v.iter().copied().into();
+                let kept_e = e.results.len() == len && e.results.iter().zip(&v).all(|(r, x)| r.0.to_bits() == x.to_bits());
+                let kept_s = sc.results.len() == len && sc.results.iter().zip(&v).all(|(r, x)| r.0.to_bits() == x.to_bits());
+                let same = |t: f64| t.to_bits() == want.to_bits() || (len == 0 && t == 0.0);
+                if !kept_e || !same(e.total_result.0) {
+                    bad(run, "results-float-error", format!("TestResults<Error<f64>> from {len} results ({pname}): total {:?}, the results summed in the order given are {want:?}{}", e.total_result.0, if kept_e { "" } else { "; the per-case results are not the ones supplied" }));
+                }
+                if !kept_s || !same(sc.total_result.0) {
+                    bad(run, "results-float-score", format!("TestResults<Score<f64>> from {len} results ({pname}): total {:?}, the results summed in the order given are {want:?}{}", sc.total_result.0, if kept_s { "" } else { "; the per-case results are not the ones supplied" }));
+                }
+            }
+        }
+        // integer results of the same lengths (totals only): large values whose sum stays within i64
+        for len in [999usize, 1000, 1001, 1002, 1499, 2001, 4097, 65_536, 65_537, 70_001] {
+            let big = i64::MAX / len as i64;
+            for (pname, v) in [
+                ("large values", (0..len as i64).map(|i| big - (i % 7)).collect::<Vec<i64>>()),
+                ("alternating signs", (0..len as i64).map(|i| if i % 2 == 0 { big } else { -big + i }).collect()),
+            ] {
+                n += 1;
+                let want: i64 = v.iter().fold(0i64, |a, b| a.wrapping_add(*b));
+                let e: TestResults<Error<i64>> = TestResults::from(v.clone());
+                let sc: TestResults<Score<i64>> = v.iter().copied().into();
+                if e.total_result != Error(want) || sc.total_result != Score(want) || e.results.len() != len || e.results.iter().zip(&v).any(|(r, x)| r.0 != *x) {
+                    bad(run, "results-long", format!("TestResults from {len} integer results ({pname}): totals {:?} / {:?}, the sum is {want}", e.total_result, sc.total_result));
+                }
+            }
+        }
+        kinds.insert("float aggregation");
+    }
     kinds.insert("aggregation");
     for (va, a) in &built_s {
         for (vb, b) in &built_s {
